@@ -391,6 +391,7 @@ def _obs():
     return obs
 
 
+PREFLIGHT = ['vp.doubles.conformance:symdf_conformance']
 OBLIGATIONS = _obs()
 ASSUMPTIONS = ['symdf contract (vp/doubles/symdf.py), checked against real pandas by the conformance pass',
                'epsilon = 0 in K1; fuzzy arithmetic is K2 (direct z3)']
